@@ -835,6 +835,8 @@ where
                 // current node. but only do that if the grandparent is something.
                 if let Some(grp) = grp {
                     if self.table[par].value.is_none() {
+                        // the parent is unlinked in both branches below: release its slot
+                        self.free.push(par);
                         if let Some(sibling) = self.table.get_child(par, !par_right) {
                             self.table.set_child(grp, sibling, grp_right);
                             return (value, true);
